@@ -8,7 +8,7 @@ NONTEST_NAMES = [b"FuzzThing/seed#0", b"BenchmarkX", b"ExampleY"]
 LINE_ALPHABET = [b"---", b"/-/-/-/", b"----", b"--- ", b" ---", b"", b" ", b"\t", b"a", b"b", b"hello world",
                  b"[", b"]", b"[TestA - 1", b"TestA - 1]", b"\xff\xfe", b"a\xffb", b"a\xfeb", b"\xc3\x28",
                  b"x\ry", b"\rz", b"{", b"}", b"key: value", b"- item", b"\xe2\x9c\x93 ok", b"--", b"/-/-/-/ ",
-                 b"int(5)", b"map[string]int{}", b"0", b"\x00", b"\x1b[0m"]
+                 b"int(5)", b"map[string]int{}", b"0", b"\x00", b"\x1b[0m", b"100%", b"%s %d %v", b"%!(EXTRA)", b"a%%b"]
 
 
 def gen_line(rng, headers=(), allow_header=False, allow_cr_end=False):
@@ -39,11 +39,11 @@ def gen_text(rng, headers=(), allow_header=False, allow_cr_end=False, maxlines=6
     return t
 
 
-JSON_DOCS = [b'{"a":1}', b'{"b":[1,2,{"c":null}],"a":"x"}', b'[]', b'{}', b'"str"', b'12.50', b'null',
+JSON_DOCS = [b'{"pct":"100%","fmt":"%s %d"}', b'{"a":1}', b'{"b":[1,2,{"c":null}],"a":"x"}', b'[]', b'{}', b'"str"', b'12.50', b'null',
              b'{"user":{"name":"n","age":3},"tags":["x","y"]}', b'{ "z" : true ,\n "y" : [ ] }',
              b'{"k\\"q":"v\\n","\\u00e9":1e3}', b'[1,[2,[3,[4]]]]', b'{"a":"---"}', b'{"time":"2020-01-01T00:00:00Z","k":"v"}']
 BAD_JSON = [b'{', b'{"a":}', b'', b'nul', b'{"a":1,}', b"{'a':1}", b'[1 2]']
-YAML_DOCS = [b"a: 1\n", b"a: 1", b"list:\n  - x\n  - y\n", b"# comment\nk: v\n---\nk2: v2\n", b"text: |\n  ---\n  more\n",
+YAML_DOCS = [b"rate: 100%\nfmt: '%v'\n", b"/-/-/-/\n", b"a\n/-/-/-/\nb\n", b"a: 1\n", b"a: 1", b"list:\n  - x\n  - y\n", b"# comment\nk: v\n---\nk2: v2\n", b"text: |\n  ---\n  more\n",
              b"a: 1\n\n\n", b"[TestA - 1]\n", b"k: [1, 2]\n", b"---\na: b\n", b"s: '/-/-/-/'\n", b"a:\n  b:\n    c: d\n"]
 BAD_YAML = [b"a: [1, 2", b"a: b: c: d\n  x", b"\t- a\n\tb", b"key: 'unterminated"]
 
@@ -86,6 +86,7 @@ def op_putfile(path, content):
     return {"op": "putfile", "path": hx(path), "content": hx(content)}
 
 
+OTHER_UPD = ["other", "raw:1", "raw:t", "raw:T", "raw:TRUE", "raw:True", "raw:false", "raw:yes", "raw:0", "raw:CLEAN", "raw: true"]
 ENVS = [(ci, u) for ci in (False, True) for u in ("unset", "true", "clean", "other")]
 
 
@@ -178,37 +179,55 @@ TYPES_OF = {"user.name": "string", "user.age": "float64", "tags.0": "string", "t
             "k\\.dot": "map", "1.b": None}
 
 
+def _overlaps(p, q):
+    return p == q or p.startswith(q + ".") or q.startswith(p + ".")
+
+
 def gen_matchers(r, good, bad, fail):
-    """fail: None (all satisfiable) | 'missing' | 'type' | 'custom' | 'mixed'"""
-    ms = []
-    n = r.range(1, 3)
-    for _ in range(n):
-        k = r.choice(["any", "type", "custom"])
-        p = r.choice(good)
-        if k == "any":
-            m = {"kind": "any", "paths": [p] + ([r.choice(good)] if r.chance(1, 3) else [])}
-            if r.chance(1, 3):
-                m["placeholder"] = r.choice(['"<x>"', '"a much longer placeholder value than before"', "42", "null", '"p"'])
-        elif k == "type":
-            t = TYPES_OF.get(p)
-            if t is None:
-                m = {"kind": "any", "paths": [p]}
-            else:
-                m = {"kind": "type", "type": t, "paths": [p]}
-        else:
-            m = {"kind": "custom", "paths": [p], "ret": r.choice(['"<c>"', "7", '{"z":1}'])}
-        ms.append(m)
+    """Matchers on pairwise NON-overlapping paths (matchers take effect left to right, so overlapping
+    paths would change what later matchers see). fail: None (all satisfiable) | 'missing' | 'type' |
+    'custom' | 'nulltype' | 'mixed'."""
+    pool = []
+    for p in r.shuffle(good):
+        if not any(_overlaps(p, q) for q in pool):
+            pool.append(p)
+    bm = None
     if fail:
-        f = fail if fail != "mixed" else r.choice(["missing", "type", "custom"])
-        if f == "missing":
+        f = fail if fail != "mixed" else r.choice(["missing", "type", "custom", "nulltype"])
+        if f == "nulltype" and "1.b" not in good:
+            f = "type"
+        if f == "nulltype":
+            # the path exists and holds JSON null: not a string, whatever ErrOnMissingPath says
+            bm = {"kind": "type", "type": r.choice(["string", "float64", "bool"]), "paths": ["1.b"],
+                  "errOnMissing": r.choice([True, False])}
+        elif f == "missing":
             bm = {"kind": r.choice(["any", "type", "custom"]), "paths": [r.choice(bad)], "type": "string"}
         elif f == "type":
-            cands = [p for p in good if TYPES_OF.get(p)]
-            p = r.choice(cands)
+            p = r.choice([p for p in good if TYPES_OF.get(p)])
             wrong = "bool" if TYPES_OF[p] != "bool" else "string"
             bm = {"kind": "type", "type": wrong, "paths": [p]}
         else:
             bm = {"kind": "custom", "paths": [r.choice(good)], "err": True}
+        pool = [p for p in pool if not _overlaps(p, bm["paths"][0])]
+    ms = []
+    for _ in range(r.range(1, 3)):
+        if not pool:
+            break
+        p = pool.pop()
+        k = r.choice(["any", "type", "custom"])
+        if k == "any":
+            paths = [p]
+            if pool and r.chance(1, 3):
+                paths.append(pool.pop())
+            m = {"kind": "any", "paths": paths}
+            if r.chance(1, 3):
+                m["placeholder"] = r.choice(['"<x>"', '"a much longer placeholder value than before"', "42", "null", '"p"'])
+        elif k == "type" and TYPES_OF.get(p):
+            m = {"kind": "type", "type": TYPES_OF[p], "paths": [p]}
+        else:
+            m = {"kind": "custom", "paths": [p], "ret": r.choice(['"<c>"', "7", '{"z":1}'])}
+        ms.append(m)
+    if bm:
         ms.insert(r.below(len(ms) + 1), bm)
     elif r.chance(1, 4):
         ms.append({"kind": r.choice(["any", "custom"]), "paths": [r.choice(bad)], "errOnMissing": False, "type": "string"})
